@@ -1,0 +1,22 @@
+//go:build verif
+
+// Contracts for the exovc verifier (/verif). Comment-only: with the tag off this file is not part
+// of the package, with the tag on it declares nothing.
+package cosmos
+
+// C13: a fee-less create-price transaction is handed on to the rest of the ante chain only after the nonce of every
+// one of its messages has been checked and consumed (ghost event 70 of the oracle keeper, one per message, in order);
+// a failing check ends the transaction there.
+// The callback contract is what any next handler may do (assumed).
+//@ func (IncrementSequenceDecorator).AnteHandle#next
+//@   flag assumed
+//@   modifies state(ctx), trace
+
+//@ func (IncrementSequenceDecorator).AnteHandle
+//@   flag pure=IsOracleCreatePriceTx
+//@   flag noframe
+//@   before[C13.isd.every] #next requires res_IsOracleCreatePriceTx_0 ==> traceN() == old(traceN()) + len(res_GetMsgs_0)
+//@ loop #1
+//@   invariant[C13.isd.every] -1 <= rangeindex && rangeindex < len(res_GetMsgs_0) && traceN() == old(traceN()) + rangeindex + 1
+//@ loop #2
+//@   invariant true
